@@ -21,7 +21,7 @@ From Coq Require Import ZArith NArith Ascii String.
 From stdpp Require Import list.
 Require Import Model.Lift Model.LiftFull Proofs.LiftBasics Proofs.LiftProofs Proofs.LiftFullProofs Proofs.LiftFullTotal.
 Require Model.Ast Model.Ir Model.Clean Model.Justify Model.Ssa Model.Dom Model.PipelineMirrors.
-Require Proofs.DesugarProofs Proofs.SsaNoPanic Proofs.SsaFuel Proofs.SsaClean Proofs.MirrorsDom.
+Require Proofs.DesugarProofs Proofs.SsaNoPanic Proofs.SsaFuel Proofs.SsaClean Proofs.MirrorsDom Proofs.IrFacts Proofs.SsaLocalDefs.
 Import Base(outcome, Ok, Err, Panic, OutOfFuel, bind, EOther).
 Local Open Scope nat_scope.
 
@@ -370,6 +370,35 @@ Proof.
   - apply in_map_iff. exists (xd_name d, Ir.TLocal). split; [done|].
     apply in_map_iff. exists d. split; [by rewrite Et|done].
   - apply SsaFuel.vname_eqb_eq in Heq. subst v. by apply SsaFuel.vname_eqb_eq.
+Qed.
+
+(* ---- an assignment tagged Local assigns a declared local ---- *)
+(* the hypothesis [tags_ok] of Proofs.SsaLocalDefs.into_ssa_ldefs_unique: the tag of a
+   lifted substitution is what propagate_types found in the declarations for the assigned
+   name, so a Local tag means a declaration of type Local with that key *)
+Theorem lifted_tags_ok kind params pfile ploc body c :
+  lift_to_ir kind params pfile ploc body = Ok c -> SsaLocalDefs.tags_ok (Ir.c_decls c) (Ir.c_blocks c).
+Proof.
+  unfold lift_to_ir. intros H. inv_bind H. injection H as <-.
+  destruct (liftfull_provenance _ _ _ _ _ _ E) as (body' & _ & _ & F).
+  assert (G : Forall (SsaLocalDefs.tag_ok (Ir.c_decls (erase_cfg (l_cfg a)))) (map erase_stmt (graph_stmts (xc_blocks (l_cfg a))))).
+  { apply Forall_forall. intros s Hs. apply elem_of_list_In in Hs. apply in_map_iff in Hs as (x & <- & Hx). apply elem_of_list_In in Hx.
+    apply elem_of_list_lookup_1 in Hx as (i & Hi).
+    destruct (Forall2_lookup_r _ _ _ _ _ F Hi) as (s0 & _ & (x0 & H0 & ->)).
+    destruct x0 as [| | |m v op rhe st| | |]; try done.
+    simpl in H0. destruct (image0_subst_untyped _ _ _ _ _ _ H0) as [-> Hv].
+    simpl. unfold decls_get_type. rewrite (without_version_unv v Hv).
+    destruct (List.find _ (xc_decls (l_cfg a))) as [d|] eqn:Ef; simpl; [|done].
+    destruct (find_some_in _ _ _ Ef) as [Hin Heq].
+    destruct (xd_type d) as [t tags] eqn:Et. simpl. destruct t; try done.
+    unfold Ssa.is_local_in. apply existsb_exists. exists (xd_name d, Ir.TLocal). split.
+    - apply in_map_iff. exists d. split; [by rewrite Et|done].
+    - apply SsaFuel.vname_eqb_eq in Heq. subst v. simpl. by rewrite IrFacts.key_eqb_refl. }
+  unfold SsaLocalDefs.tags_ok, erase_cfg at 2. simpl.
+  apply Forall_forall. intros b Hb. apply elem_of_list_In in Hb. apply in_map_iff in Hb as (xb & <- & Hxb).
+  unfold SsaLocalDefs.bok. simpl. apply Forall_forall. intros s Hs.
+  rewrite Forall_forall in G. apply G. apply elem_of_list_In. apply elem_of_list_In in Hs.
+  apply in_map_iff in Hs as (x & <- & Hx). apply in_map. unfold graph_stmts. apply in_flat_map. by exists xb.
 Qed.
 
 (* ---- the graph DominatorTree::new reads ---- *)
